@@ -375,13 +375,13 @@ impl SighashSignature {
     }
 
     pub(crate) fn from_bytes_impl(bytes: &[u8], sighash_buffer: &[u8]) -> Result<Self, BSVErrors> {
-        let der_bytes = if bytes.len() <= 72 { bytes } else { &bytes[..bytes.len() - 1] };
-        let signature = Signature::from_der_impl(der_bytes)?;
-        let sighash_type: SigHash = bytes
-            .last()
-            .cloned()
-            .ok_or_else(|| BSVErrors::ToSighash("Could not convert last byte of signature to Sighash flag".into()))?
-            .try_into()?;
+        // The last byte is the sighash flag and everything before it is the DER signature: nothing else may follow
+        // the signature, and a signature without a flag byte is not of this form even if its own last byte has a flag's value
+        let (flag, der_bytes) = bytes
+            .split_last()
+            .ok_or_else(|| BSVErrors::ToSighash("Could not convert last byte of signature to Sighash flag".into()))?;
+        let sighash_type: SigHash = (*flag).try_into()?;
+        let signature = Signature::from_strict_der_impl(der_bytes)?;
         Ok(Self {
             sighash_type,
             signature,
